@@ -2,6 +2,7 @@ package main
 
 import (
 	"fmt"
+	zi "github.com/Oudwins/zog/internals"
 	"math/rand"
 	"strings"
 )
@@ -364,3 +365,87 @@ func famLong(tw *traceWriter, r *rand.Rand, n int) {
 }
 
 func init() { families["long"] = famLong }
+
+// C04 through the JSON front ends with NOTHING present: an empty document is a record whose fields are all absent
+// (untagged schemas: the key-naming findings of tagged empty records do not interfere)
+func famEmptyDoc(tw *traceWriter, r *rand.Rand, n int) {
+	if n == 0 {
+		n = 60
+	}
+	for i := 0; i < n; i++ {
+		g := genCfg{maxDepth: 1, noPT: true, noPath: true, noCustom: true}
+		var sch *Node
+		for {
+			sch = genStruct(r, g, 0)
+			flat := true
+			for _, k := range sch.Kids {
+				flat = flat && (k.Node.K == "prim" || k.Node.K == "slice")
+			}
+			if flat {
+				break
+			}
+		}
+		for _, fe := range []string{"zhttpjson", "json", "map"} {
+			c := &Case{ID: fmt.Sprintf("ed%d-%s", i, fe), Mode: "parse", Fe: fe, Schema: sch, Input: mapIn()}
+			tw.emitCase(c, "", false)
+		}
+	}
+}
+
+// C05: only catching nodes fail, so no issue ever exists: every value-rewriting PostTransform of every other node (siblings
+// visited later, enclosing slices) must run, in both modes
+func famCatchPT(tw *traceWriter, r *rand.Rand, n int) {
+	for i := 0; i < n; i++ {
+		ty := pick(r, []string{"int", "float", "str"})
+		catcher := prim(ty, r.Intn(2) == 0, None, 5, []Test{{Kind: "gte", N: 3, Code: builtinCode(ty, "gte")}}, nil)
+		if r.Intn(3) == 0 {
+			catcher.Tests = append(catcher.Tests, Test{Kind: "lte", N: 1, Code: "u1", User: true})
+		}
+		plain := func() *Node {
+			return prim(pick(r, []string{"int", "float", "str"}), false, None, None, nil, []string{"mut"})
+		}
+		kids := []Kid{{Key: "a", Node: catcher}, {Key: "b", Node: plain()}}
+		switch r.Intn(3) {
+		case 0:
+			kids = append(kids, Kid{Key: "c", Node: slice(plain(), false, None, nil, nil)})
+		case 1:
+			kids = append(kids, Kid{Key: "c", Node: slice(prim(ty, false, None, 5, []Test{{Kind: "gte", N: 3, Code: builtinCode(ty, "gte")}}, nil), false, None, nil, nil)}, Kid{Key: "d", Node: plain()})
+		}
+		sch := strct(kids, nil, nil)
+		mode := pick(r, []string{"parse", "validate"})
+		ents := []Ent{{Key: "a", Val: val(1)}, {Key: "b", Val: val(2)}}
+		if len(kids) > 2 {
+			ents = append(ents, Ent{Key: "c", Val: list(val(1), val(4), val(2))})
+		}
+		if len(kids) > 3 {
+			ents = append(ents, Ent{Key: "d", Val: val(3)})
+		}
+		c := &Case{ID: fmt.Sprintf("cpt%d", i), Mode: mode, Fe: "map", Schema: sch, Input: mapIn(ents...)}
+		tw.emitCase(c, "c05pt", true)
+	}
+}
+
+// C10: a leaf six path segments deep below a slice of several items, every item failing, on pools that were just cleared
+// (the pooled path builder starts small and grows while the items are visited)
+func famDeep(tw *traceWriter, r *rand.Rand, n int) {
+	leafN := prim("int", false, None, None, []Test{{Kind: "gte", N: 2, Code: "gte"}}, nil)
+	item := strct([]Kid{{Key: "customer", Node: strct([]Kid{{Key: "address", Node: strct([]Kid{{Key: "zip", Node: leafN}}, nil, nil)}}, nil, nil)}}, nil, nil)
+	sch := strct([]Kid{{Key: "orders", Node: slice(item, false, None, nil, nil)}}, nil, nil)
+	mkItem := func(v int) *Input {
+		return mapIn(Ent{Key: "customer", Val: mapIn(Ent{Key: "address", Val: mapIn(Ent{Key: "zip", Val: val(v)})})})
+	}
+	in := mapIn(Ent{Key: "orders", Val: list(mkItem(1), mkItem(3), mkItem(1), mkItem(0), mkItem(1))})
+	save := preludeOff
+	preludeOff = true
+	defer func() { preludeOff = save }()
+	for i, mode := range []string{"parse", "validate", "parse", "validate"} {
+		zi.ClearPools()
+		tw.emitCase(&Case{ID: fmt.Sprintf("deep%d", i), Mode: mode, Fe: "map", Schema: sch, Input: in}, "", true)
+	}
+}
+
+func init() {
+	families["emptydoc"] = famEmptyDoc
+	families["catchpt"] = famCatchPT
+	families["deep"] = famDeep
+}
